@@ -6,7 +6,8 @@ PROP = {'suites': ['c10', 'c10near'],
              5: 'with rotation, a refresh response carried no replacement refresh token',
              6: 'a refresh token was accepted after the absolute expiry fixed when the grant was created',
              7: 'a refresh widened the resources (aud) beyond the original grant',
-             8: "an access token issued under a grant was still reported live after the owning client's refresh had been refused past the grant's absolute expiry (the expired grant was not removed)"},
+             8: "an access token issued under a grant was still reported live after the owning client's refresh had been refused past the grant's absolute expiry (the expired grant was not removed)",
+             9: 'a refresh of the owning client naming only resources of the original grant was refused as invalid_target (the grant can no longer return to its full extent)'},
  'title': 'Refresh tokens are client-bound, never widen or extend the grant, and rotate',
  'text': 'Theorems over the model: refresh_bound (for every store and refresh that yields tokens: token indexes a grant of the authenticated client, absolute expiry not passed and NOT moved, '
          'requested scopes within the original grant whose granted set is unchanged, same grant id re-saved, replacement token in the response under rotation), refresh_never_widens_resources (the '
@@ -17,7 +18,8 @@ PROP = {'suites': ['c10', 'c10near'],
          'rotation_independent_of_issue_policy: the refresh handler is the same program under every such function. Deterministic scenarios: scenarioRotationPolicy (each policy x rotation on/off, '
          'refreshes that keep and drop offline_access, replay of every used token), scenarioGrantedSubset (owner grants a strict subset of requested scopes and resources, code / CIBA poll / CIBA '
          'ping, then a refresh chain naming nothing, the denied scope, the denied resource). Deterministic scenario scenarioExpiredGrantRemoved: the access token outlives the grant; after the '
-         'refused refresh it must be dead at introspection, userinfo and TokenInfo (clause 8).',
+         'refused refresh it must be dead at introspection, userinfo and TokenInfo (clause 8). Deterministic scenario scenarioReturnToFullGrant: a grant over three resources narrowed to every '
+         'non-empty subset in turn (prefix and non-prefix, every order), each followed by refreshes for every single original resource and for nothing (clause 9).',
  'note': 'Grants created by jwt-bearer (with a refresh token: only for an authenticated client registered for refresh_token, never the anonymous client - Props/C04.v jwt_bearer_within_client) enter '
          'the refresh chains of the model and of suite c10 like those of authorization_code and CIBA. Theorems are about the hand-written model (coq/Model); the model is tied to the Go code by the '
          'correspondence runs only as far as the generators reach (counts in the evidence). Crypto, parsers and the clock are modelled (DESIGN.md section 8). Resource indicators are in the model; '
